@@ -171,6 +171,7 @@ type c16Op struct {
 	desc map[string]any
 	run  func(ctx sdk.Context) error // nil for blocks
 	dt   int64
+	sp   int64 // spelling class of the name in the request
 }
 
 func (e *c16Env) handle(ctx sdk.Context, msg sdk.Msg) error {
@@ -185,6 +186,39 @@ func (e *c16Env) handle(ctx sdk.Context, msg sdk.Msg) error {
 	}
 	_, err := h(ctx, msg)
 	return err
+}
+
+// spell renders name id n in spelling class sp (see "Spelling" in coq/Attribute/Attribute.v):
+// 0 canonical; 1 spaces around the whole name; 2 other letter case (maybe with outer spaces);
+// 3 spaces inside, next to the dot; 4 inside spaces and other letter case.
+func (e *c16Env) spell(n, sp int64, variant int) string {
+	seg, root := e.segs[n-1], e.root
+	upper := func(x string) string {
+		switch variant % 3 {
+		case 0:
+			return strings.ToUpper(x)
+		case 1:
+			return strings.ToUpper(x[:1]) + x[1:]
+		default:
+			return x[:1] + strings.ToUpper(x[1:])
+		}
+	}
+	switch sp {
+	case 1:
+		return []string{" ", "  ", "\t"}[variant%3] + seg + "." + root + []string{" ", "", " \t"}[(variant/3)%3]
+	case 2:
+		name := []string{upper(seg) + "." + root, seg + "." + strings.ToUpper(root), upper(seg) + "." + upper(root)}[(variant/3)%3]
+		if (variant/9)%2 == 1 {
+			name = " " + name + " "
+		}
+		return name
+	case 3:
+		return []string{seg + " ." + root, seg + ". " + root, seg + " . " + root}[variant%3]
+	case 4:
+		return []string{upper(seg) + " ." + root, seg + ". " + strings.ToUpper(root), upper(seg) + " . " + upper(root)}[variant%3]
+	default:
+		return seg + "." + root
+	}
 }
 
 func c16Time(x *int64) *time.Time {
@@ -222,46 +256,51 @@ func (e *c16Env) opDeleteName(c, n int64) c16Op {
 		}}
 }
 
-func (e *c16Env) opAdd(c, a, n, v, ty int64, exp *int64) c16Op {
-	return c16Op{kind: "add", term: fmt.Sprintf("OAdd %d %d %d %d %d %s", c, a, n, v, ty, c16OptZ(exp)),
-		desc: map[string]any{"op": "add", "caller": c, "account": a, "name": n, "value": v, "type": ty, "exp": exp},
+func (e *c16Env) opAdd(c, a, n, v, ty int64, exp *int64, sp int64, vr int) c16Op {
+	name := e.spell(n, sp, vr)
+	return c16Op{kind: "add", sp: sp, term: fmt.Sprintf("OAdd %d %d %d %d %d %s %d", c, a, n, v, ty, c16OptZ(exp), sp),
+		desc: map[string]any{"op": "add", "caller": c, "account": a, "name": n, "name_as_sent": name, "value": v, "type": ty, "exp": exp},
 		run: func(ctx sdk.Context) error {
-			return e.handle(ctx, &attrtypes.MsgAddAttributeRequest{Name: e.names[n-1], Value: []byte(e.values[v-1]),
+			return e.handle(ctx, &attrtypes.MsgAddAttributeRequest{Name: name, Value: []byte(e.values[v-1]),
 				AttributeType: attrtypes.AttributeType(ty), Account: e.addrStr(a), Owner: e.addrStr(c), ExpirationDate: c16Time(exp)})
 		}}
 }
 
-func (e *c16Env) opUpdate(c, a, n, ov, oty, nv, nty int64) c16Op {
-	return c16Op{kind: "update", term: fmt.Sprintf("OUpdate %d %d %d %d %d %d %d", c, a, n, ov, oty, nv, nty),
-		desc: map[string]any{"op": "update", "caller": c, "account": a, "name": n, "orig_value": ov, "orig_type": oty, "value": nv, "type": nty},
+func (e *c16Env) opUpdate(c, a, n, ov, oty, nv, nty int64, sp int64, vr int) c16Op {
+	name := e.spell(n, sp, vr)
+	return c16Op{kind: "update", sp: sp, term: fmt.Sprintf("OUpdate %d %d %d %d %d %d %d %d", c, a, n, ov, oty, nv, nty, sp),
+		desc: map[string]any{"op": "update", "caller": c, "account": a, "name": n, "name_as_sent": name, "orig_value": ov, "orig_type": oty, "value": nv, "type": nty},
 		run: func(ctx sdk.Context) error {
-			return e.handle(ctx, &attrtypes.MsgUpdateAttributeRequest{Name: e.names[n-1], OriginalValue: []byte(e.values[ov-1]), UpdateValue: []byte(e.values[nv-1]),
+			return e.handle(ctx, &attrtypes.MsgUpdateAttributeRequest{Name: name, OriginalValue: []byte(e.values[ov-1]), UpdateValue: []byte(e.values[nv-1]),
 				OriginalAttributeType: attrtypes.AttributeType(oty), UpdateAttributeType: attrtypes.AttributeType(nty), Account: e.addrStr(a), Owner: e.addrStr(c)})
 		}}
 }
 
-func (e *c16Env) opUpdateExp(c, a, n, v int64, exp *int64) c16Op {
-	return c16Op{kind: "update_exp", term: fmt.Sprintf("OUpdateExp %d %d %d %d %s", c, a, n, v, c16OptZ(exp)),
-		desc: map[string]any{"op": "update_expiration", "caller": c, "account": a, "name": n, "value": v, "exp": exp},
+func (e *c16Env) opUpdateExp(c, a, n, v int64, exp *int64, sp int64, vr int) c16Op {
+	name := e.spell(n, sp, vr)
+	return c16Op{kind: "update_exp", sp: sp, term: fmt.Sprintf("OUpdateExp %d %d %d %d %s %d", c, a, n, v, c16OptZ(exp), sp),
+		desc: map[string]any{"op": "update_expiration", "caller": c, "account": a, "name": n, "name_as_sent": name, "value": v, "exp": exp},
 		run: func(ctx sdk.Context) error {
-			return e.handle(ctx, &attrtypes.MsgUpdateAttributeExpirationRequest{Name: e.names[n-1], Value: []byte(e.values[v-1]),
+			return e.handle(ctx, &attrtypes.MsgUpdateAttributeExpirationRequest{Name: name, Value: []byte(e.values[v-1]),
 				ExpirationDate: c16Time(exp), Account: e.addrStr(a), Owner: e.addrStr(c)})
 		}}
 }
 
-func (e *c16Env) opDelete(c, a, n int64) c16Op {
-	return c16Op{kind: "delete", term: fmt.Sprintf("ODelete %d %d %d", c, a, n),
-		desc: map[string]any{"op": "delete", "caller": c, "account": a, "name": n},
+func (e *c16Env) opDelete(c, a, n int64, sp int64, vr int) c16Op {
+	name := e.spell(n, sp, vr)
+	return c16Op{kind: "delete", sp: sp, term: fmt.Sprintf("ODelete %d %d %d %d", c, a, n, sp),
+		desc: map[string]any{"op": "delete", "caller": c, "account": a, "name": n, "name_as_sent": name},
 		run: func(ctx sdk.Context) error {
-			return e.handle(ctx, &attrtypes.MsgDeleteAttributeRequest{Name: e.names[n-1], Account: e.addrStr(a), Owner: e.addrStr(c)})
+			return e.handle(ctx, &attrtypes.MsgDeleteAttributeRequest{Name: name, Account: e.addrStr(a), Owner: e.addrStr(c)})
 		}}
 }
 
-func (e *c16Env) opDeleteDistinct(c, a, n, v int64) c16Op {
-	return c16Op{kind: "delete_distinct", term: fmt.Sprintf("ODeleteDistinct %d %d %d %d", c, a, n, v),
-		desc: map[string]any{"op": "delete_distinct", "caller": c, "account": a, "name": n, "value": v},
+func (e *c16Env) opDeleteDistinct(c, a, n, v int64, sp int64, vr int) c16Op {
+	name := e.spell(n, sp, vr)
+	return c16Op{kind: "delete_distinct", sp: sp, term: fmt.Sprintf("ODeleteDistinct %d %d %d %d %d", c, a, n, v, sp),
+		desc: map[string]any{"op": "delete_distinct", "caller": c, "account": a, "name": n, "name_as_sent": name, "value": v},
 		run: func(ctx sdk.Context) error {
-			return e.handle(ctx, &attrtypes.MsgDeleteDistinctAttributeRequest{Name: e.names[n-1], Value: []byte(e.values[v-1]), Account: e.addrStr(a), Owner: e.addrStr(c)})
+			return e.handle(ctx, &attrtypes.MsgDeleteDistinctAttributeRequest{Name: name, Value: []byte(e.values[v-1]), Account: e.addrStr(a), Owner: e.addrStr(c)})
 		}}
 }
 
@@ -325,6 +364,15 @@ func (g *c16Gen) caller(n int64) int64 {
 	return g.pick([]int64{1, 2, 3, 4})
 }
 
+// callerSp: with a non-canonical spelling the caller is a non-owner half of the time (a request
+// whose name merely looks different must not get past the ownership check)
+func (g *c16Gen) callerSp(n, sp int64) int64 {
+	if sp != 0 && g.r.Intn(2) == 0 {
+		return g.pick([]int64{1, 2, 3, 4})
+	}
+	return g.caller(n)
+}
+
 func (g *c16Gen) newExp() *int64 {
 	switch x := g.r.Intn(100); {
 	case x < 22:
@@ -341,6 +389,14 @@ func (g *c16Gen) newExp() *int64 {
 		g.expPool = append(g.expPool, v)
 		return &v
 	}
+}
+
+// sp picks how the name is spelled in the request: canonical most of the time
+func (g *c16Gen) sp() (int64, int) {
+	if g.r.Intn(100) < 70 {
+		return 0, 0
+	}
+	return int64(g.r.Intn(4) + 1), g.r.Intn(54)
 }
 
 func (g *c16Gen) existing() (c16Rec, bool) {
@@ -396,38 +452,48 @@ func (g *c16Gen) next() c16Op {
 			if g.r.Intn(2) == 0 {
 				ty = g.goodType()
 			}
-			return e.opAdd(g.caller(rec.name), rec.acct, rec.name, rec.val, ty, g.newExp())
+			sp, vr := g.sp()
+			return e.opAdd(g.caller(rec.name), rec.acct, rec.name, rec.val, ty, g.newExp(), sp, vr)
 		}
 		n := g.anyName()
-		return e.opAdd(g.caller(n), g.pick(e.targets), n, int64(g.r.Intn(3)+1), g.goodType(), g.newExp())
+		sp, vr := g.sp()
+		return e.opAdd(g.caller(n), g.pick(e.targets), n, int64(g.r.Intn(3)+1), g.goodType(), g.newExp(), sp, vr)
 	case x < 52:
 		if rec, ok := g.existing(); ok && g.r.Intn(8) != 0 {
 			oty := rec.typ
 			if g.r.Intn(8) == 0 {
 				oty = g.pick(c16GoodTypes)
 			}
-			return e.opUpdate(g.caller(rec.name), rec.acct, rec.name, rec.val, oty, int64(g.r.Intn(3)+1), g.goodType())
+			sp, vr := g.sp()
+			return e.opUpdate(g.caller(rec.name), rec.acct, rec.name, rec.val, oty, int64(g.r.Intn(3)+1), g.goodType(), sp, vr)
 		}
 		n := g.anyName()
-		return e.opUpdate(g.caller(n), g.pick(e.targets), n, int64(g.r.Intn(3)+1), g.pick(c16GoodTypes), int64(g.r.Intn(3)+1), g.goodType())
+		sp, vr := g.sp()
+		return e.opUpdate(g.caller(n), g.pick(e.targets), n, int64(g.r.Intn(3)+1), g.pick(c16GoodTypes), int64(g.r.Intn(3)+1), g.goodType(), sp, vr)
 	case x < 62:
 		if rec, ok := g.existing(); ok && g.r.Intn(8) != 0 {
-			return e.opUpdateExp(g.caller(rec.name), rec.acct, rec.name, rec.val, g.newExp())
+			sp, vr := g.sp()
+			return e.opUpdateExp(g.caller(rec.name), rec.acct, rec.name, rec.val, g.newExp(), sp, vr)
 		}
 		n := g.anyName()
-		return e.opUpdateExp(g.caller(n), g.pick(e.targets), n, int64(g.r.Intn(3)+1), g.newExp())
+		sp, vr := g.sp()
+		return e.opUpdateExp(g.caller(n), g.pick(e.targets), n, int64(g.r.Intn(3)+1), g.newExp(), sp, vr)
 	case x < 67:
 		if rec, ok := g.existing(); ok && g.r.Intn(6) != 0 {
-			return e.opDelete(g.caller(rec.name), rec.acct, rec.name)
+			sp, vr := g.sp()
+			return e.opDelete(g.callerSp(rec.name, sp), rec.acct, rec.name, sp, vr)
 		}
 		n := g.anyName()
-		return e.opDelete(g.caller(n), g.pick(e.targets), n)
+		sp, vr := g.sp()
+		return e.opDelete(g.callerSp(n, sp), g.pick(e.targets), n, sp, vr)
 	case x < 73:
 		if rec, ok := g.existing(); ok && g.r.Intn(6) != 0 {
-			return e.opDeleteDistinct(g.caller(rec.name), rec.acct, rec.name, rec.val)
+			sp, vr := g.sp()
+			return e.opDeleteDistinct(g.callerSp(rec.name, sp), rec.acct, rec.name, rec.val, sp, vr)
 		}
 		n := g.anyName()
-		return e.opDeleteDistinct(g.caller(n), g.pick(e.targets), n, int64(g.r.Intn(3)+1))
+		sp, vr := g.sp()
+		return e.opDeleteDistinct(g.callerSp(n, sp), g.pick(e.targets), n, int64(g.r.Intn(3)+1), sp, vr)
 	case x < 75:
 		n := g.anyName()
 		return e.opPurge(g.caller(n), n)
@@ -452,14 +518,16 @@ func (g *c16Gen) scenario() []c16Op {
 		g.expPool = append(g.expPool, x)
 	}
 	g.expPool = append(g.expPool, e1)
-	ops := []c16Op{e.opBind(n, ow), e.opAdd(ow, a, n, v, g.pick(c16GoodTypes), &e1)}
+	sp1, vr1 := g.sp()
+	sp2, vr2 := g.sp()
+	ops := []c16Op{e.opBind(n, ow), e.opAdd(ow, a, n, v, g.pick(c16GoodTypes), &e1, sp1, vr1)}
 	switch g.r.Intn(3) {
 	case 0:
 		ops = append(ops, e.opPurge(ow, n))
 	case 1:
 		ops = append(ops, e.opDeleteName(ow, n), e.opBind(n, ow))
 	}
-	ops = append(ops, e.opAdd(ow, a, n, v, g.pick(c16GoodTypes), e2))
+	ops = append(ops, e.opAdd(ow, a, n, v, g.pick(c16GoodTypes), e2, sp2, vr2))
 	dt := e1 - g.now + 1
 	if e2 != nil && g.r.Intn(2) == 0 {
 		dt = *e2 - g.now // exactly at the new expiration: still not due
@@ -531,6 +599,12 @@ func TestC16(t *testing.T) {
 			}
 			cur := env.observe(ctx, ok)
 			w.Count("op_" + op.kind)
+			if op.sp != 0 {
+				w.Count(fmt.Sprintf("spelling_class_%d", op.sp))
+				if ok {
+					w.Count("accepted_noncanonical_spelling")
+				}
+			}
 			if ok {
 				w.Count("accepted_" + op.kind)
 				w.Count("accepted")
